@@ -741,14 +741,18 @@ class PendingAugAssign(PendingNode[AugAssign]):
         assign_value = expr_transf(self.nsp, self.node.value)
         if isinstance(self.node.target, Name):
             target = self.nsp.get_load_name(self.node.target.id)
+            # the result of the in-place method has to be stored back as well:
+            # it doesn't have to be the same object
             return [
-                self._aug_assign_expr(
-                    target,
-                    self.node.op,
-                    assign_value,
-                    fallback=self.nsp.get_assign(
-                        self.node.target.id,
-                        BinOp(left=target, op=self.node.op, right=assign_value),
+                self.nsp.get_assign(
+                    self.node.target.id,
+                    self._aug_assign_expr(
+                        target,
+                        self.node.op,
+                        assign_value,
+                        fallback=BinOp(
+                            left=target, op=self.node.op, right=assign_value
+                        ),
                     ),
                 )
             ]
